@@ -29,12 +29,13 @@ import (
 	"github.com/tikv/pd/server/kv"
 	"github.com/tikv/pd/server/schedule/placement"
 	"go.uber.org/zap/zapcore"
+	"pdverif/livesrv"
 	"pdverif/vkit"
 	"pdverif/vkit/faultkv"
 	"pgregory.net/rapid"
 )
 
-func TestMain(m *testing.M)   { vkit.Main(m, "C13") }
+func TestMain(m *testing.M)   { vkit.MainWith(m, "C13", livesrv.ShutdownAll) }
 func TestProp(t *testing.T)   { vkit.RunAll(t) }
 func TestReplay(t *testing.T) { vkit.RunReplay(t) }
 
